@@ -35,7 +35,19 @@ def job_items():
     prog = st.one_of(gen_prog.programs(max_stmts=12, with_control=True), gen_macro.macro_programs(single_file=True, max_stmts=15, with_control=True))
     p_item = prog.map(lambda p: {"kind": "program", "prog": p})
     s_item = decomp.input_strategy(w1=1, w2=1, w3=2, max_stmts=12).map(lambda c: {"kind": "ssb", "case": c})
-    return st.one_of(p_item, s_item, s_item)
+    return st.one_of(p_item, s_item, s_item, p_item, s_item, s_item, deep_item())
+
+
+def deep_item():
+    """a routine of 340-420 consecutive ifs: the decompiler nests them, i.e. recurses about three frames per if -
+    interpreter-wide state like the recursion limit only matters for inputs of this depth"""
+    def mk(n):
+        body = [{"k": "if", "not": False, "conds": [{"c": "neg", "not": False, "kw": "debug"}], "body": [{"k": "op", "name": f"d_{i}", "args": [], "ctx": None}],
+                 "elifs": [], "else": None} for i in range(n)] + [{"k": "ctl", "v": "end"}]
+        return {"kind": "ssb", "deep": n, "case": {"stratum": 1, "gaps": [0], "prog": {"imports": [], "macros": [], "routines": [
+            {"kind": "def", "id": 0, "name": None, "target": None, "alias": False, "body": body}]}}}
+
+    return st.integers(340, 420).map(mk)
 
 
 def strategy(tier):
